@@ -2,6 +2,8 @@
 APIConnection per attempt); the projection is the current connection's projection plus cl=<client._connection is not None>."""
 from __future__ import annotations
 
+from .privnames import priv, has_priv
+
 import asyncio
 from unittest.mock import patch
 
@@ -68,7 +70,7 @@ class ClientTrace(Trace):
 
     def projection(self):
         base = INIT_PROJ if self.conn is None else Trace.projection(self)
-        return base + f",cl={int(self.cli._connection is not None)}"
+        return base + f",cl={int(priv(self.cli, "_connection") is not None)}"
 
     def _before(self, handle):
         Trace._before(self, handle)
@@ -80,7 +82,7 @@ class ClientTrace(Trace):
             self.cur_label = "silent"
         # disconnect() on a client that holds no connection returns at once: not a task of the model
         if self.cur_label == "cdisc" and isinstance(owner, asyncio.Task):
-            self.tasks[owner] = "NOOP" if self.cli._connection is None else "D"
+            self.tasks[owner] = "NOOP" if priv(self.cli, "_connection") is None else "D"
         # so are callbacks of an earlier connection's transport
         if self.cur_label in ("clost", "made") and getattr(owner, "session", self.session) != self.session:
             self.cur_label = "silent"
@@ -139,7 +141,7 @@ class ClientTrace(Trace):
             # sequential use only: a new attempt while a coroutine of the previous connection object has not returned yet
             # (the client would accept it; what the late coroutine then does to the new attempt is outside the model, see DESIGN.md F13)
             if any(not t.done() for t, tid in self.tasks.items() if tid not in ("NOOP", "FORCE")):
-                if cli._connection is None:
+                if priv(cli, "_connection") is None:
                     self.overlap_skipped = getattr(self, "overlap_skipped", 0) + 1
                     return "silent"
                 # the client holds a connection: the refusal is raised before the first await, probe it synchronously
@@ -161,8 +163,8 @@ class ClientTrace(Trace):
             return None
         if k == "finish":
             from aioesphomeapi.connection import ConnectionState as S
-            if cli._connection is None or any(tid == "F" and not t.done() for t, tid in self.tasks.items()) \
-                    or cli._connection.connection_state is not S.SOCKET_OPENED:
+            if priv(cli, "_connection") is None or any(tid == "F" and not t.done() for t, tid in self.tasks.items()) \
+                    or priv(cli, "_connection").connection_state is not S.SOCKET_OPENED:
                 return "silent"
             t = self.loop.create_task(cli.finish_connection(login=bool(a[1])))
             self.tasks[t] = "F"
@@ -173,7 +175,7 @@ class ClientTrace(Trace):
             if any(tid == "D" and not t.done() for t, tid in self.tasks.items()):
                 return "silent"
             t = self.loop.create_task(cli.disconnect())
-            self.tasks[t] = "D" if cli._connection is not None else "NOOP"
+            self.tasks[t] = "D" if priv(cli, "_connection") is not None else "NOOP"
             self.task_session[t] = self.session
             self.first_label[t] = "cdisc"
             return None
@@ -216,7 +218,7 @@ async def run_scenario(loop, scenario, **kw):
         timers = [name for _, name in loop.armed_timers()]
         pending = sorted(tid for t, tid in tr.tasks.items() if not t.done())
         closed = tr.conn is None or tr.conn.connection_state is S.CLOSED
-        tr.audits.append((len(tr.steps), closed, timers, pending, tr.cli._connection is not None))
+        tr.audits.append((len(tr.steps), closed, timers, pending, priv(tr.cli, "_connection") is not None))
 
     with tr.net.patched(), patch("aioesphomeapi.client.APIConnection", tr.make_conn):
         await asyncio.sleep(0)      # see conntrace.run_scenario
@@ -244,7 +246,7 @@ async def run_scenario(loop, scenario, **kw):
         # final probe on the real client: does it accept a new attempt exactly when nothing is alive or in progress?
         from aioesphomeapi.connection import ConnectionState as S
         from aioesphomeapi.core import APIConnectionError, ResolveAPIError
-        busy = any(not t.done() for t in tr.tasks) or (tr.conn is not None and tr.cli._connection is tr.conn and tr.conn.connection_state is not S.CLOSED)
+        busy = any(not t.done() for t in tr.tasks) or (tr.conn is not None and priv(tr.cli, "_connection") is tr.conn and tr.conn.connection_state is not S.CLOSED)
         loop.before_callback = loop.after_callback = None
         tr.net.resolve_script = [ResolveAPIError("probe")]
         writes_before = sum(len(t.writes) for t in tr.net.transports)
@@ -256,9 +258,9 @@ async def run_scenario(loop, scenario, **kw):
         except Exception as e:  # noqa
             cmd = "raw:" + type(e).__name__
         wrote = sum(len(t.writes) for t in tr.net.transports) - writes_before
-        alive = tr.conn is not None and tr.cli._connection is tr.conn and tr.conn.connection_state is S.CONNECTED
+        alive = tr.conn is not None and priv(tr.cli, "_connection") is tr.conn and tr.conn.connection_state is S.CONNECTED
         # a connection object that is still open although the client no longer refers to it
-        open_unreferenced = tr.conn is not None and tr.cli._connection is not tr.conn and tr.conn.connection_state is not S.CLOSED
+        open_unreferenced = tr.conn is not None and priv(tr.cli, "_connection") is not tr.conn and tr.conn.connection_state is not S.CLOSED
         try:
             await tr.cli.start_connection()
             probe = "accepted"
